@@ -413,6 +413,9 @@ def build_graph(ctx, source_kwargs):
             raise ValueError('unknown op %r' % op)
         N[nid] = s
         ctx.instrument(nid, s, entry=entry, cont=cont)
+    # feedback edges (guarded by unique in the generated templates): connected after construction
+    for fb in sc.get('feedback', []):
+        N[fb['from']].connect(N[fb['to']])
     return N
 
 
